@@ -5,6 +5,7 @@ import Driver.Util
 import JanetModel.Fiber.Boot
 import JanetModel.Fiber.Guard
 import JanetModel.Fiber.Sched
+import JanetModel.Fiber.Named
 open Driver JanetModel.Fiber
 
 def parseAtom (t : String) : Atom :=
@@ -192,6 +193,11 @@ def showTaskEnd (s : State) : String :=
 
 def stepLine (_ : Unit) (toks : List String) : Unit × String :=
   match toks with
+  | ["named", a, m, v, keys] =>
+    let v0 := match parseAtom v with | .lit x => x | _ => .nil
+    match firstResumeNamed (num a) (num m) (if keys == "-" then [] else keys.splitOn ",") v0 with
+    | .error e => ((), "err " ++ e.replace " " "_")
+    | .ok (ps, ns) => ((), "ok " ++ String.intercalate "," ((ps ++ ns).map showVal))
   | "stree" :: fl :: fuel :: a :: m :: rs :: v :: acts :: r =>
     match parseTm r with
     | some (t, []) =>
